@@ -2,6 +2,7 @@ package main
 
 import (
 	"go/ast"
+	"go/token"
 	"go/types"
 	"sort"
 	"strings"
@@ -15,11 +16,18 @@ import (
 // names one and not the other treats two variables of the same class
 // differently (a var<push_constant> scalar got no Block wrapper).
 func (c *Ctx) runSpaceSameClass(r *Report, rule string, pkg string, exceptions map[string]string) {
+	c.runSpaceSameClassIn(r, rule, pkg, pkg, exceptions)
+}
+
+// runSpaceSameClassIn takes the shared classes from classPkg (the SPIR-V
+// backend: the two WGSL spellings push_constant / immediate of one thing) and
+// checks the switches and comparisons of pkg.
+func (c *Ctx) runSpaceSameClassIn(r *Report, rule string, classPkg, pkg string, exceptions map[string]string) {
 	// 1. equivalence classes from the mapping function: func(ir.AddressSpace) (<class>, ...)
 	classOf := map[string]string{}
 	var mapFn *funcInfo
 	for _, fn := range c.allFuncs() {
-		if fn.Pkg.Rel != pkg || fn.Obj == nil || fn.Decl.Body == nil {
+		if fn.Pkg.Rel != classPkg || fn.Obj == nil || fn.Decl.Body == nil {
 			continue
 		}
 		sig := fn.Obj.Type().(*types.Signature)
@@ -74,6 +82,7 @@ func (c *Ctx) runSpaceSameClass(r *Report, rule string, pkg string, exceptions m
 		if fn.Pkg.Rel != pkg || fn.Obj == nil || fn.Decl.Body == nil || fn == mapFn {
 			continue
 		}
+		// a function from the address space to its target name is the mapping itself
 		info := fn.Pkg.Info
 		ord := 0
 		ast.Inspect(fn.Decl.Body, func(m ast.Node) bool {
@@ -125,6 +134,45 @@ func (c *Ctx) runSpaceSameClass(r *Report, rule string, pkg string, exceptions m
 			}
 			return true
 		})
+		// comparisons: X == ir.SpaceA somewhere in the function needs X == ir.SpaceB too
+		cmp := map[string]ast.Node{}
+		ast.Inspect(fn.Decl.Body, func(m ast.Node) bool {
+			be, ok := m.(*ast.BinaryExpr)
+			if !ok || (be.Op != token.EQL && be.Op != token.NEQ) {
+				return true
+			}
+			for _, e := range []ast.Expr{be.X, be.Y} {
+				if tv, ok := info.Types[e]; ok && irTypeName(tv.Type) == "AddressSpace" {
+					if s := irConstNameAny(info, e); s != "" && cmp[s] == nil {
+						cmp[s] = be
+					}
+				}
+			}
+			return true
+		})
+		for _, g := range shared {
+			var present, missing []string
+			for _, s := range g {
+				if cmp[s] != nil {
+					present = append(present, s)
+				} else {
+					missing = append(missing, s)
+				}
+			}
+			if len(present) == 0 {
+				continue
+			}
+			n++
+			cons := fn.id() + ":compare:" + strings.Join(g, "+")
+			switch {
+			case len(missing) == 0:
+				r.ok(rule, cons, c.pos(cmp[present[0]].Pos()), "")
+			case exceptions[cons] != "":
+				r.exc(rule, cons, c.pos(cmp[present[0]].Pos()), exceptions[cons])
+			default:
+				r.viol(rule, cons, c.pos(cmp[present[0]].Pos()), fn.id()+" compares the address space with "+strings.Join(present, ", ")+" and never with "+strings.Join(missing, ", ")+", although both are one storage class ("+classOf[g[0]]+"): a variable declared with the other spelling is not handled")
+			}
+		}
 	}
 	r.inst(rule, n)
 }
@@ -133,6 +181,9 @@ func init() {
 	dumpers["spaceclass"] = func(c *Ctx, parts []string) {
 		r := newReport("dump")
 		c.runSpaceSameClass(r, "space.sameclass", "spirv/internal/codegen", nil)
+		for _, p := range []string{"msl/internal/codegen", "hlsl/internal/codegen", "glsl/internal/codegen", "dxil/internal/emit"} {
+			c.runSpaceSameClassIn(r, "space.sameclass", "spirv/internal/codegen", p, nil)
+		}
 		for _, o := range r.Obs {
 			println(o.Verdict, o.Construct, o.Pos)
 		}
